@@ -34,7 +34,7 @@ SHARD_SIZE = 12
 
 
 def budget(tier):
-    return 176 if tier == "quick" else 4000
+    return 176 if tier == "quick" else 2000
 
 
 def description(rng):
